@@ -107,6 +107,8 @@ def generate(prop, seed, tier):
         fault_exc=rng.choice([None, None, None, "KeyboardInterrupt", "SystemExit"]),
         name=rng.choice(["t", "t", "result.pkl", "result.json", "data.v2.bin", ".hidden", "a b.txt"]),
         sibling=rng.random() < 0.3,
+        # the store path is a symbolic link (outputs kept elsewhere): to a file holding the previous value, or dangling
+        symlink=rng.random() < 0.15,
     )
 
 
@@ -130,6 +132,8 @@ def _prepare(d, desc):
     for name in os.listdir(d):
         os.remove(os.path.join(d, name))
     target = os.path.join(d, desc.get("name", "t"))
+    if desc.get("symlink"):
+        os.symlink(os.path.join(d, "elsewhere-" + desc.get("name", "t")), target)   # os.utime / open follow it
     if desc["prior"] != "absent":
         with open(target, "wb") as f:
             f.write(b"OLD-VALUE-" * 7)
@@ -164,7 +168,7 @@ def execute(prop, desc):
         old_bytes = b"OLD-VALUE-" * 7 if desc["prior"] != "absent" else None
         # unfaulted reference write (also counts the file operations)
         path = _prepare(d, desc)
-        plan = fs.FaultPlan(None, desc["buffer_size"])
+        plan = fs.FaultPlan(None, desc["buffer_size"], root=d)
         fs.install(plan)
         ref_exc = None
         try:
@@ -209,7 +213,7 @@ def execute(prop, desc):
                 if pid == 0:
                     code = 0
                     try:
-                        fs.install(fs.FaultPlan(fault, desc["buffer_size"]))
+                        fs.install(fs.FaultPlan(fault, desc["buffer_size"], root=d))
                         do_write(desc, path, value, kwargs)
                     except BaseException:
                         code = 1
@@ -222,7 +226,7 @@ def execute(prop, desc):
                 if not v and died:
                     v = _after_death(desc, d, path)
             else:
-                plan = fs.FaultPlan(fault, desc["buffer_size"])
+                plan = fs.FaultPlan(fault, desc["buffer_size"], root=d)
                 fs.install(plan)
                 raised = None
                 try:
@@ -266,7 +270,7 @@ def _sibling_scenario(desc, d, value, kwargs, new_bytes, ref_exc):
         ext = ".txt" if not base.endswith(".txt") else ".dat"
         sib = os.path.join(os.path.dirname(str(path)), stem + ext)
         sib_path = pathlib.Path(sib) if desc["path_type"] == "pathlib" else sib
-        fs.install(fs.FaultPlan(None, desc["buffer_size"]))
+        fs.install(fs.FaultPlan(None, desc["buffer_size"], root=d))
         inner_exc = outer_exc = None
         try:
             try:
